@@ -155,6 +155,19 @@ def check(pid: str, tier: str, seed: int):
             except Exception:
                 continue
             mutate_graph(impl, rng, g)
+            if rng.random() < 0.4:
+                # the graph was saved before, then changed through its nodes and attackers: a save writes the graph as it is now
+                try:
+                    early = os.path.join(scratch, 'early.' + rng.choice(['json', 'yml']))
+                    g.save_to_file(early)
+                    os.remove(early)
+                except Exception:
+                    pass
+                model, g.model = g.model, None       # no second attach_attackers
+                try:
+                    mutate_graph(impl, rng, g)
+                finally:
+                    g.model = model
             nodes, atts, names = content_of(g)
             ref = typed_view(g)
             pv = []
@@ -223,7 +236,7 @@ def check(pid: str, tier: str, seed: int):
                if m['atts'] and any(n['children'] for n in m['nodes'])}
     cov = {'evaluations': len(cases) + len(lcases), 'distinct_nontrivial': len(nontriv), 'rebuild_cases': len(lcases), 'rebuild_cases_loadable': lcounters.get('GLOADABLE', 0),
            'rule': 'attack graphs generated from seeded random languages and models with model attackers attached, then compromise / undo, '
-                   'analysis, pruning, node extras, tags, node removal; saved to .json and .yml, loaded with and without the model; '
+                   'analysis, pruning, node extras, tags, node removal (in 40% of the cases the graph is saved once in between and changed again); saved to .json and .yml, loaded with and without the model; '
                    'non-trivial = the graph has attackers and edges; distinct by content',
            'samples': [metas[0]['nodes'][:2]] if metas else [], 'configurations': configs, 'mismatches': len(bad) + len(lbad), 'exhaustive': False}
     return {'violations': violations, 'coverage': cov,
